@@ -95,6 +95,8 @@ def _terminates(stmts):
         return True
     if isinstance(s, ast.If):
         return bool(s.orelse) and _terminates(s.body) and _terminates(s.orelse)
+    if isinstance(s, ast.Try) and not s.finalbody:
+        return _terminates(s.orelse if s.orelse else s.body) and all(_terminates(h.body) for h in s.handlers)
     return False
 
 
@@ -195,6 +197,8 @@ class _Expr(ast.NodeTransformer):
                     return ast.Tuple(elts=a.elts, ctx=ast.Load())
                 if isinstance(a, (ast.List, ast.Tuple)) and f.id == "list":
                     return ast.List(elts=a.elts, ctx=ast.Load())
+            if f.id == "range" and len(node.args) == 2 and isinstance(node.args[0], ast.Constant) and node.args[0].value == 0 and not node.keywords:
+                node.args = node.args[1:]
             # super(C, self) -> super()
             if f.id == "super" and len(node.args) == 2 and isinstance(node.args[1], ast.Name) and node.args[1].id in ("self", "cls") \
                     and isinstance(node.args[0], ast.Name) and node.args[0].id == self.class_name:
@@ -288,7 +292,24 @@ class _Expr(ast.NodeTransformer):
     def visit_IfExp(self, node):
         self.generic_visit(node)
         if isinstance(node.test, ast.UnaryOp) and isinstance(node.test.op, ast.Not):
-            return ast.IfExp(test=node.test.operand, body=node.orelse, orelse=node.body)
+            node = ast.IfExp(test=node.test.operand, body=node.orelse, orelse=node.body)
+        # x if x else d  ->  x or d ;   d if x else x  ->  x and d        (x evaluated once either way when it is pure)
+        if _simple_pure(node.test) and _dump(node.test) == _dump(node.body):
+            return self.visit_BoolOp(ast.BoolOp(op=ast.Or(), values=[node.test, node.orelse]), descend=False)
+        if _simple_pure(node.test) and _dump(node.test) == _dump(node.orelse):
+            return self.visit_BoolOp(ast.BoolOp(op=ast.And(), values=[node.test, node.body]), descend=False)
+        return node
+
+    def visit_BoolOp(self, node, descend=True):
+        if descend:
+            self.generic_visit(node)
+        vals = []
+        for v in node.values:
+            if isinstance(v, ast.BoolOp) and type(v.op) is type(node.op):
+                vals.extend(v.values)       # (a or b) or c == a or b or c
+            else:
+                vals.append(v)
+        node.values = vals
         return node
 
 
@@ -319,6 +340,12 @@ def _negate(e, wrap=None, test=False):
     if isinstance(e, ast.BoolOp):
         # De Morgan keeps the evaluation order and the short circuit
         return ast.BoolOp(op=ast.Or() if isinstance(e.op, ast.And) else ast.And(), values=[_negate(v, test=test) for v in e.values])
+    if isinstance(e, ast.Call) and isinstance(e.func, ast.Name) and e.func.id in ("any", "all") and len(e.args) == 1 and not e.keywords \
+            and isinstance(e.args[0], (ast.GeneratorExp, ast.ListComp)):
+        # not any(p for ..) == all(not p for ..)  (same iteration, same short circuit)
+        g = e.args[0]
+        return ast.Call(func=ast.Name(id="all" if e.func.id == "any" else "any", ctx=ast.Load()),
+                        args=[ast.GeneratorExp(elt=_negate(g.elt, test=True), generators=g.generators)], keywords=[])
     return wrap if wrap is not None else ast.UnaryOp(op=ast.Not(), operand=e)
 
 
@@ -525,6 +552,7 @@ def _norm_block(stmts, fn_locals):
     out = _tail_merge(out)
     out = _try_hoist(out)
     out = _result_var(out)
+    out = _count_loops(out, fn_locals)
     out = _loops_to_builtins(out)
     out = _inline_temps(out, fn_locals)
     out = _return_ifexp(out)
@@ -805,6 +833,41 @@ def _result_var(stmts):
         if changed:
             out[i] = new[0]
             return _norm_block(out, {})
+    return out
+
+
+def _count_loops(stmts, later_reads):
+    """i = A ; while i < B: BODY ; i += S     ->     for i in range(A, B, S): BODY
+    (S a positive int literal, A and B pure and not written in BODY, i not written in BODY and not read after the loop, no `continue` that
+    would skip the increment; B is taken to be an int as in every such loop of this code base)"""
+    out = list(stmts)
+    k = 0
+    while k + 1 < len(out):
+        a, w = out[k], out[k + 1]
+        if isinstance(a, ast.Assign) and len(a.targets) == 1 and isinstance(a.targets[0], ast.Name) and isinstance(w, ast.While) and not w.orelse \
+                and isinstance(w.test, ast.Compare) and len(w.test.ops) == 1 and isinstance(w.test.ops[0], ast.Lt) and isinstance(w.test.left, ast.Name) \
+                and w.test.left.id == a.targets[0].id and w.body and isinstance(w.body[-1], ast.AugAssign) and isinstance(w.body[-1].op, ast.Add) \
+                and isinstance(w.body[-1].target, ast.Name) and w.body[-1].target.id == a.targets[0].id and isinstance(w.body[-1].value, ast.Constant) \
+                and type(w.body[-1].value.value) is int and w.body[-1].value.value > 0 and _simple_pure(a.value) and _simple_pure(w.test.comparators[0]):
+            i = a.targets[0].id
+            body = w.body[:-1]
+            bound = w.test.comparators[0]
+            written = {n.id for st in body for n in ast.walk(st) if isinstance(n, ast.Name) and isinstance(n.ctx, (ast.Store, ast.Del))}
+            has_continue = any(isinstance(n, ast.Continue) for st in body for n in ast.walk(st) if not isinstance(n, (ast.For, ast.While)))
+            nested_loop_continue = False
+            inside = sum(1 for n in ast.walk(w) if isinstance(n, ast.Name) and n.id == i and isinstance(n.ctx, ast.Load))
+            info = later_reads.get(i) if isinstance(later_reads, dict) else None
+            # every read of the counter in the whole function is inside this loop (the value it is left with is never looked at)
+            read_after = info is None or info[1] != inside
+            if body and i not in written and not (written & (_names_loaded(bound) | _names_loaded(a.value))) and not has_continue and not read_after \
+                    and not any(isinstance(n, (ast.Yield, ast.YieldFrom)) and False for st in body for n in ast.walk(st)):
+                step = w.body[-1].value.value
+                args = [a.value, bound] + ([ast.Constant(step)] if step != 1 else [])
+                if step == 1 and isinstance(a.value, ast.Constant) and a.value.value == 0:
+                    args = [bound]
+                out[k:k + 2] = [ast.For(target=ast.Name(id=i, ctx=ast.Store()), iter=ast.Call(func=ast.Name(id="range", ctx=ast.Load()), args=args, keywords=[]), body=body, orelse=[])]
+                continue
+        k += 1
     return out
 
 
